@@ -18,6 +18,22 @@ claimed={
  "C14": H("Retention 40s/10min, TTL 2min/1h, delivery delay 20s (also on a dead-letter subscription): clock moves to 1.5s before / 0.5s after each retention end, TTL end and delay end; a message is never delivered after its retention or before its delay and always while retained and due; the expiry sweep deletes a subscription iff a full TTL passed without pull activity; an expired subscription behaves as deleted.", "§6 C14"),
  "C15": H("Histories with the seven maintenance jobs (min age 0 and 1h, batch 1 and 100) spliced in at every position: the client-visible oracles of C01-C06 must not notice them, live topics/subscriptions/outstanding deliveries must keep their rows; from EVERY visited state two convergence runs (delete everything / ack everything, +2h, jobs in a state-dependent order until a round reclaims nothing) must end with no failing job and no dead row.", "§6 C15"),
 }
+def E4(text, ref, note, tech, level="exploration", engine="E4 InputEnum"):
+    return dict(level=level, engine=engine, technique=tech, text=text, note=note, ref=ref)
+claimed.update({
+ "C07": E4("Every filter AST of the enumerated shapes (1-3 terms, NOT / '-' on any term, AND / OR chains, parenthesised sub-conditions on either side; thorough: 4-chains and a 5-name vocabulary incl. unicode and keyword-like names) is rendered in up to three surface styles, parsed by the repository parser and evaluated on EVERY attribute map over the vocabulary, against an independent 30-line reference evaluator; the boolean laws are checked as implementation-vs-implementation pairs on the same enumeration; filters with up to 2 terms are also installed on real subscriptions and every attribute map is published once.", "§6 C07",
+    "the cell `attributes.k != \"v\"` with k absent is a don't-care (three-valued reference); unbounded random/fuzzed filters are another technique and not claimed",
+    "bounded-exhaustive enumeration of filter ASTs x attribute maps against an independent reference evaluator (no sampling)"),
+ "C08": E4("Acceptance parity with a hand-written recogniser of the documented grammar on (i) every sequence of up to 5 (thorough 6) token classes joined three ways, (ii) grammar sentences with adversarial names/strings and every single-token deletion, swap, substitution and insertion; every accepted string is printed with AsFilter, re-parsed and compared (AST equality and agreement on all attribute maps); (iii) every byte string up to length 6 (7) over a 12-symbol alphabet is parsed in watchdogged worker processes (crash / hang / stack overflow); every rejected sentence variant is sent through CreateSubscription and UpdateSubscription(filter) and the tables are compared.", "§6 C08",
+    "whitespace inside `!=` and keyword-spelled unquoted attribute names are don't-care for acceptance; bytes outside the enumerated alphabets are not covered",
+    "bounded-exhaustive enumeration of token sequences / sentence mutations / byte strings against an independent recogniser"),
+ "C16": E4("For each of the 25 Publisher/Subscriber RPCs the valid base request and every request deviating from it in at most 2 fields (each field over its boundary domain: names valid/unknown/other kind/empty/5 segments, integers min/-1/0/1/max, durations negative/zero/1ns/10^4 years/invalid nanos, nested messages absent/empty/populated, ack ids live/stale/foreign/garbage/empty, masks known/unknown/repeated/empty/nil, payloads JSON/non-JSON/empty/binary, timestamps year 1/epoch/9999/invalid) is sent over real TCP gRPC to a server SUBPROCESS built from grpc.NewGrpcService + services.InitializeGrpcServers (production interceptor chain). After every request: the process must be alive and answering, the call must carry a gRPC status, and an error status must leave the five tables unchanged.", "§6 C16",
+    "deviation bound 2 per request (pairs of simultaneously odd fields); a failed Pull/StreamingPull may have refreshed expires_at / leased messages; real time, 300 ms deadline per request",
+    "deviation-bounded exhaustive request enumeration against a live server subprocess; crash = process exit"),
+ "C17": E4("Create->Get->List over the cross product of labels x retention x TTL x ordering x filter x retry policy x dead-letter policy x push endpoint (incl. 1 ns and 10-year durations); all 2^8 update-mask subsets x 3 value variants as first update followed by a second update (quick: single-path and full masks on a quarter of the pairs; thorough: all pairs) from two base configurations, each followed by Get and compared with 'exactly the masked fields changed' (every request carries values for ALL fields); Interval Value->Scan over a structured grid of durations incl. negatives and extremes; ParsePostgreSQLInterval on 10k generated PostgreSQL-style strings against a reference reading.", "§6 C17",
+    "SQLite backend; PostgreSQL's rendering represented by generated strings in its default IntervalStyle; absent and zero optional durations compared as equal",
+    "bounded-exhaustive configuration / update-sequence / duration enumeration against the harness's own expected-configuration record"),
+})
 pending_reason="not claimed yet in this session: check under construction (see DESIGN.md §6); no alarm is raised for it"
 checks=[]
 for p in props:
@@ -40,6 +56,7 @@ m={
  "hooks":{"guard":"verif","enable":"go1.26.8 test -c -tags verif -vet=off -overlay /verif/.build/overlay/overlay.json (overlay adds export files and sync-shim rewrites; /repo sources are never modified for instrumentation)",
           "baseline_off_cmd":"/verif/baseline.sh","source_commits":[],"add_only":True},
  "engines":[
+  {"name":"E4 InputEnum","path":"/verif/mc/checks","serves_properties":[p for p in props if p in claimed and claimed[p]["engine"].startswith("E4")],"kind_free_text":"bounded-exhaustive input enumeration against independent references (filter evaluator / recogniser, expected-configuration record, live server subprocess)"},
   {"name":"E1 HistoryMC","path":"/verif/mc/hist","serves_properties":[p for p in props if p in claimed and claimed[p]["engine"].startswith("E1")],"kind_free_text":"explicit-state BFS over API histories executed on the real code; state = canonical table dump + model digest; 16 worker processes"},
  ],
  "checks":checks,
